@@ -87,6 +87,16 @@ def time_limit(seconds):
         signal.signal(signal.SIGALRM, old)
 
 
+def accept(fn, text, what):
+    """Run a constructor of the code under test on an input that is sound by construction (only
+    the frozen grammar, declared variables/constants): a validation error is a violation here."""
+    try:
+        return fn()
+    except (ValueError, RuntimeError, NotImplementedError, TypeError, KeyError, AttributeError) as e:
+        raise Violation(f"{what}: sound input `{text}` rejected with {type(e).__name__}: {str(e)[:300]}",
+                        key=f"rejected-sound-input:{what}:{type(e).__name__}") from None
+
+
 def run_generated(fn, text, what):
     """Call code generated from an expression.  Exceptions raised *inside* generated code have
     no repository frame at the end of their traceback, so they are classified here: a name that
@@ -183,9 +193,10 @@ CLASH = ["beta", "gamma", "S", "Q", "N", "zeta"]
 @st.composite
 def signatures(draw, vs, allow_none=True, allow_alias=True):
     """Return {"sig": None | [entry,...], "names": {var: text name}, "mode": str}."""
-    modes = ["plain", "perm", "extra"] + (["alias", "alias", "clash"] if allow_alias else [])
+    # NB: Hypothesis favours the first element of sampled_from
+    modes = ["perm"] + (["alias", "alias", "clash"] if allow_alias else []) + ["extra", "plain"]
     if allow_none:
-        modes += ["none", "none"]
+        modes = modes[:2] + ["none", "none"] + modes[2:]
     mode = draw(st.sampled_from(modes))
     if mode == "none":
         return {"sig": None, "names": {}, "mode": mode}
@@ -227,7 +238,7 @@ def scalar_cases(draw, profile, max_depth=5, indexed=True, consts=True, cmp_top=
     return {
         "ast": ast, "vars": vs, "consts": cs, "sig": sig,
         "shape_seed": draw(st.integers(0, 2**31)),
-        "args": {"seed": draw(st.integers(0, 2**31)), "n": draw(st.integers(1, 6)),
+        "args": {"seed": draw(st.integers(0, 2**31)), "n": draw(st.sampled_from([3, 4, 2, 5, 6, 1])),
                  "layout": draw(st.sampled_from(list(layouts)))},
         "route": draw(st.sampled_from(list(routes))),
     }
@@ -288,7 +299,7 @@ def make_expression(case, text, cls=ScalarExpression, **kw):
     kwargs.update(kw)
     t0 = time.time()
     with time_limit(SIMPLIFY_LIMIT):
-        expr = cls(text, **kwargs)
+        expr = accept(lambda: cls(text, **kwargs), text, cls.__name__)
     return expr, envd, consts, full, time.time() - t0, used
 
 
@@ -419,9 +430,9 @@ def tensor_cases(draw, profile=None, jit=False):
     cs = [] if jit else draw(G.uconsts())
     rank = draw(st.sampled_from([1, 1, 2]))
     if rank == 1:
-        shape = [draw(st.integers(1, 3))]
+        shape = [draw(st.sampled_from([2, 3, 1]))]
     else:
-        shape = [draw(st.integers(1, 2)), draw(st.integers(1, 3))]
+        shape = [draw(st.sampled_from([2, 1])), draw(st.sampled_from([2, 3, 1]))]
     n = int(np.prod(shape))
     routes = ["array_separate", "array_single", "get_function"] if jit else ["call", "getitem", "get_function"]
     route = draw(st.sampled_from(routes))
@@ -431,7 +442,7 @@ def tensor_cases(draw, profile=None, jit=False):
     return {
         "asts": asts, "tshape": shape, "vars": vs, "consts": cs, "sig": sig,
         "shape_seed": draw(st.integers(0, 2**31)),
-        "args": {"seed": draw(st.integers(0, 2**31)), "n": draw(st.integers(1, 5)),
+        "args": {"seed": draw(st.integers(0, 2**31)), "n": draw(st.sampled_from([3, 2, 4, 1, 5])),
                  "layout": draw(st.sampled_from(["flat", "flat", "scalar"] if jit else
                                                 ["flat", "outer", "scalar", "mixed"]))},
         "route": route,
@@ -494,6 +505,11 @@ def check_tensor(case, backend="numpy", tolk=TOLK):
         if route == "call":
             got = run_generated(lambda: expr(*args), text, f"{backend}/{route}")
         elif route == "get_function":
+            if backend == "numba" and full != () and len({bool(expr[i if len(i) > 1 else i[0]].constant)
+                                                           for i in np.ndindex(*shape)}) > 1:
+                # numba cannot type a list mixing arrays and numbers (loud TypeError): components
+                # must all be constant or all depend on the array arguments
+                return {"nt": False, "labels": ["numba-list-with-constant-component(not judged)"]}
             f = expr.get_function(backend)
             got = run_generated(lambda: f(*args), text, f"{backend}/{route}")
         elif route in ("array_separate", "array_single"):
@@ -570,12 +586,12 @@ def grid_coordinates(spec):
 def field_cases(draw):
     spec = draw(GG.grids(max_cells=6, max_total=64, len_lo=1e-2, len_hi=50.0, offset_mag=50.0))
     cls = spec["cls"]
-    rank = draw(st.sampled_from([0, 0, 0, 1, 1, 2]))
+    rank = draw(st.sampled_from([0, 1, 0, 2, 0, 1]))
     dim = GG.dim_of(spec)
     bounds = GG.axes_bounds(spec)
     axes = AXES[cls][:len(spec["shape"])]
     vs = [{"name": ax, "lo": b[0], "hi": b[1], "n": 0} for ax, b in zip(axes, bounds)]
-    use_cart = draw(st.sampled_from([True, False, False]))
+    use_cart = draw(st.sampled_from([False, False, True]))
     extra_leaves = []
     ranges = {}
     if use_cart:
@@ -610,9 +626,9 @@ def _field_ast(draw, vs, cs, extra_leaves, max_depth, budget):
         i = int(name.split("#")[1])
         ranges[name] = r
         leaves.append(["idx", name, i])
-    depth = draw(st.sampled_from([d for d in (1, 2, 3, 3, 4, 5) if d <= max_depth]))
+    depth = draw(st.sampled_from([d for d in (3, 4, 2, 5, 3, 1) if d <= max_depth]))
     b = G.Builder(draw, leaves, ranges, G.PROFILE_NUMPY, budget)
-    if draw(st.sampled_from([True] + [False] * 7)):
+    if draw(st.sampled_from([False] * 7 + [True])):
         ast = ["cmp", draw(st.sampled_from(G.CMP_OPS)), b.node(depth - 1), b.node(depth - 1)]
     else:
         ast = b.node(depth, root=True)
@@ -650,14 +666,16 @@ def check_field(case):
     kw = dict(consts=dict(consts) or None, user_funcs=ufs or None)
     key = f"field:{spec['cls']}:rank{rank}"
     try:
-        with time_limit(SIMPLIFY_LIMIT * len(texts)):
+        with time_limit(SIMPLIFY_LIMIT + 0.5 * len(texts)):
             if rank == 0:
-                f = pde.ScalarField.from_expression(grid, texts[0], **kw)
+                build = lambda: pde.ScalarField.from_expression(grid, texts[0], **kw)  # noqa: E731
             elif rank == 1:
-                f = pde.VectorField.from_expression(grid, texts, **kw)
+                build = lambda: pde.VectorField.from_expression(grid, texts, **kw)  # noqa: E731
             else:
                 rows = [texts[r * dim:(r + 1) * dim] for r in range(dim)]
-                f = pde.Tensor2Field.from_expression(grid, rows, **kw)
+                build = lambda: pde.Tensor2Field.from_expression(grid, rows, **kw)  # noqa: E731
+            f = run_generated(lambda: accept(build, str(texts), "from_expression"), " ; ".join(texts),
+                              "from_expression")
     except _Timeout:
         return {"nt": False, "labels": ["simplify-timeout"]}
     want_shape = (dim,) * rank + full
@@ -702,16 +720,16 @@ def derivative_cases(draw):
     return {
         "ast": ast, "vars": vs, "consts": cs, "sig": sig,
         "shape_seed": draw(st.integers(0, 2**31)),
-        "args": {"seed": draw(st.integers(0, 2**31)), "n": draw(st.integers(2, 5)), "layout": "flat"},
-        "route": draw(st.sampled_from(["differentiate", "differentiate", "derivatives"])),
-        "wrt": draw(st.integers(0, 2)),
+        "args": {"seed": draw(st.integers(0, 2**31)), "n": draw(st.sampled_from([3, 2, 4, 5])), "layout": "flat"},
+        "route": draw(st.sampled_from(["derivatives", "differentiate"])),
+        "wrt": draw(st.sampled_from([0, 1, 2])),
     }
 
 
 def fd_derivative(ast, env_all, name, full):
     """central finite differences of the oracle evaluator with one Richardson step"""
     x = np.asarray(env_all[name], dtype=float)
-    h = 1e-3 * (1 + np.abs(x))
+    h = 2e-5 * (1 + np.abs(x))
 
     def f(xx):
         e = dict(env_all)
@@ -747,7 +765,7 @@ def check_derivative(case):
         except G.DomainBug as e:
             raise HarnessError(f"generator produced an ill-defined formula: {e}") from None
         # harness self-check: forward mode against finite differences of the same evaluator
-        if np.any(np.abs(fd - res.d) > 1e-5 * (res.DE + np.abs(res.d)) + 1e-7):
+        if np.any(np.abs(fd - res.d) > 1e-4 * (res.DE + np.abs(res.d)) + 1e-6):
             raise HarnessError(f"oracle derivative inconsistent with finite differences for {ast!r}")
         return res
 
@@ -818,7 +836,7 @@ def number_cases(draw):
     ast = draw(G.asts(vs, [], profile=G.PROFILE_SYMPY, max_depth=4, budget=14))
     return {"ast": ast, "vars": vs, "seed": draw(st.integers(0, 2**31)),
             "shape_seed": draw(st.integers(0, 2**31)),
-            "as_number": draw(st.sampled_from([True] + [False] * 15))}
+            "as_number": draw(st.sampled_from([False] * 15 + [True]))}
 
 
 def check_number(case):
@@ -838,7 +856,8 @@ def check_number(case):
         return {"nt": False, "labels": ["number-passthrough"]}
     text, alts = G.render_info(ast, case["shape_seed"])
     with time_limit(SIMPLIFY_LIMIT):
-        got = parse_number(text, envd if envd or case["seed"] % 2 else None)
+        got = accept(lambda: parse_number(text, envd if envd or case["seed"] % 2 else None), text,
+                     "parse_number")
     if isinstance(got, complex):
         raise Violation(f"parse_number(`{text}`, {envd}) returned the complex number {got!r}",
                         key="number:complex")
@@ -863,7 +882,7 @@ def evaluate_cases(draw):
     cls = spec["cls"]
     axes = AXES[cls][:len(spec["shape"])]
     bounds = GG.axes_bounds(spec)
-    nf = draw(st.integers(1, 3))
+    nf = draw(st.sampled_from([2, 1, 3]))
     names = [n for n in draw(st.permutations(FIELD_NAMES)) if n not in axes][:nf]
     fields = []
     for n in names:
@@ -874,7 +893,7 @@ def evaluate_cases(draw):
     if use_coords:
         vs += [{"name": ax, "lo": b[0], "hi": b[1], "n": 0} for ax, b in zip(axes, bounds)]
     cs = draw(G.uconsts())
-    ast = draw(G.asts(vs, cs, profile=G.PROFILE_NUMPY, max_depth=4, budget=16, cmp_top=False))
+    ast = draw(G.asts(vs, cs, profile=G.PROFILE_FIELDS, max_depth=4, budget=16, cmp_top=False))
     return {"grid": spec, "fields": fields, "vars": vs, "consts": cs, "ast": ast,
             "use_coords": use_coords, "as_collection": draw(st.booleans()),
             "shape_seed": draw(st.integers(0, 2**31)), "label": draw(st.sampled_from([None, "res", "ρ"]))}
@@ -904,8 +923,9 @@ def check_evaluate(case, backend="numpy", tolk=TOLK):
     fields = pde.FieldCollection(list(fobjs.values())) if case["as_collection"] else fobjs
     try:
         with time_limit(SIMPLIFY_LIMIT):
-            out = evaluate(text, fields, consts=dict(consts) or None, user_funcs=ufs or None,
-                           backend=backend, label=case["label"])
+            out = run_generated(lambda: accept(
+                lambda: evaluate(text, fields, consts=dict(consts) or None, user_funcs=ufs or None,
+                                 backend=backend, label=case["label"]), text, "evaluate"), text, "evaluate")
     except _Timeout:
         return {"nt": False, "labels": ["simplify-timeout"]}
     key = f"evaluate:{backend}:{root_kind(ast)}"
@@ -983,39 +1003,39 @@ NT_VALUE = ("non-trivial = AST depth >= 3 with a non-commutative operator nested
 SUBCHECKS = [
     SubCheck("value_numpy",
              strategy=lambda: scalar_cases(G.PROFILE_NUMPY, routes=("call", "call", "get_function", "copy", "kwargs")),
-             check=check_value, mode="pure", budget={"quick": 2400, "thorough": 48000},
-             shards={"quick": 5, "thorough": 12}, rule=NT_VALUE),
+             check=check_value, mode="pure", budget={"quick": 1400, "thorough": 40000},
+             shards={"quick": 6, "thorough": 12}, rule=NT_VALUE),
     SubCheck("value_numba",
              strategy=lambda: scalar_cases(G.PROFILE_FULL, routes=("get_function", "get_function", "single_arg"),
                                            indexed=True, layouts=("flat", "flat", "scalar", "mixed", "outer")).filter(
                  lambda c: not (c["route"] == "single_arg" and any(v["n"] for v in c["vars"]))),
-             check=check_value_numba, mode="jit", budget={"quick": 240, "thorough": 6000},
-             shards={"quick": 4, "thorough": 12}, rule=NT_VALUE),
+             check=check_value_numba, mode="jit", budget={"quick": 200, "thorough": 6000},
+             shards={"quick": 3, "thorough": 12}, rule=NT_VALUE),
     SubCheck("single_arg",
              strategy=lambda: scalar_cases(G.PROFILE_NUMPY, indexed=False, routes=("single_arg",),
                                            layouts=("flat", "scalar", "mixed", "outer")),
-             check=check_value, mode="pure", budget={"quick": 300, "thorough": 6000},
+             check=check_value, mode="pure", budget={"quick": 160, "thorough": 6000},
              shards={"quick": 1, "thorough": 2}, rule=NT_VALUE),
     SubCheck("tensor_expression", strategy=lambda: tensor_cases(G.PROFILE_NUMPY), check=check_tensor,
-             mode="pure", budget={"quick": 250, "thorough": 5000}, shards={"quick": 1, "thorough": 2},
+             mode="pure", budget={"quick": 160, "thorough": 5000}, shards={"quick": 1, "thorough": 2},
              rule="non-trivial = >= 2 components, one of depth >= 2 with a non-commutative operator"),
     SubCheck("tensor_expression_jit", strategy=lambda: tensor_cases(G.PROFILE_FULL, jit=True),
-             check=check_tensor_jit, mode="jit", budget={"quick": 40, "thorough": 800},
+             check=check_tensor_jit, mode="jit", budget={"quick": 30, "thorough": 800},
              shards={"quick": 1, "thorough": 4},
              rule="non-trivial = >= 2 components, one of depth >= 2 with a non-commutative operator"),
     SubCheck("field_from_expression", strategy=field_cases, check=check_field, mode="pure",
-             budget={"quick": 500, "thorough": 10000}, shards={"quick": 2, "thorough": 4},
+             budget={"quick": 400, "thorough": 10000}, shards={"quick": 2, "thorough": 4},
              rule="non-trivial = some component of depth >= 2 depending on a coordinate"),
     SubCheck("derivatives", strategy=derivative_cases, check=check_derivative, mode="pure",
-             budget={"quick": 150, "thorough": 3000}, shards={"quick": 2, "thorough": 8},
+             budget={"quick": 130, "thorough": 3000}, shards={"quick": 2, "thorough": 8},
              rule="non-trivial = differentiable AST of depth >= 2 depending on a variable"),
     SubCheck("parse_number", strategy=number_cases, check=check_number, mode="pure",
-             budget={"quick": 400, "thorough": 8000}, shards={"quick": 1, "thorough": 2},
+             budget={"quick": 1500, "thorough": 30000}, shards={"quick": 1, "thorough": 2},
              rule="non-trivial = depth >= 2 with a non-commutative operator"),
     SubCheck("mod_in_negative_product", strategy=known_mod_cases, check=check_known_mod, mode="jit",
              budget={"quick": 40, "thorough": 400}, shards={"quick": 1, "thorough": 1},
              rule="aimed family sign*coefficient*(a % m)*b and a % (1/b) (repaired defects " + KNOWN_MOD_KEY + ")"),
     SubCheck("evaluate_fields", strategy=evaluate_cases, check=check_evaluate, mode="pure",
-             budget={"quick": 250, "thorough": 5000}, shards={"quick": 1, "thorough": 2},
+             budget={"quick": 200, "thorough": 5000}, shards={"quick": 1, "thorough": 2},
              rule="non-trivial = depth >= 2 depending on a field"),
 ]
